@@ -112,7 +112,9 @@ def check_repr(ctx, name, consts, rp):
     hist = rp['hist']
     marks = [c['marks'] for c in hist]
     sig = 'config=%s marks=%s' % (name, json.dumps(marks))
-    hs, events, err = hs_util.replay_history(consts, hist, containers=('set',), truncflag=consts['TruncMark'])
+    order = len(json.dumps(marks)) % 3      # 0: HB first, 1: THB first, 2: probed history (queries between refines)
+    hs, events, err = hs_util.replay_history(consts, hist, containers=('set',), truncflag=consts['TruncMark'],
+                                             probes=order == 2)
     if err is not None:
         return      # reported by the main replay
     F = [(l, tuple(x)) for l, x in hs.active_functions(flat=True)]
@@ -122,10 +124,20 @@ def check_repr(ctx, name, consts, rp):
     H = dense(rp['hb'], rp['nfine'], nc)
     T = dense(rp['thb'], rp['nfine'], nc)
     try:
-        Hc = hs.represent_fine(truncate=False).toarray()
-        Tc = hs.represent_fine(truncate=True).toarray()
+        if order == 1:
+            Tc = hs.represent_fine(truncate=True).toarray()
+            Hc = hs.represent_fine(truncate=False).toarray()
+        else:
+            Hc = hs.represent_fine(truncate=False).toarray()
+            Tc = hs.represent_fine(truncate=True).toarray()
         t2h = hs.thb_to_hb().toarray()
         h2t = hs.hb_to_thb().toarray()
+        # the queries are read-only: asking again (in the other order) gives the same matrices
+        Tc2 = hs.represent_fine(truncate=True).toarray()
+        Hc2 = hs.represent_fine(truncate=False).toarray()
+        if Hc2.shape != Hc.shape or abs(Hc2 - Hc).max() > 0 or abs(Tc2 - Tc).max() > 0:
+            ctx.violation('represent_fine-not-read-only ' + sig, {})
+            return
     except Exception as ex:
         ctx.violation('exception %s in represent_fine/thb_to_hb %s' % (type(ex).__name__, sig), {'error': repr(ex)})
         return
@@ -287,6 +299,17 @@ def run(ctx):
                     if hs_util.project(hs_t) != hs_util.project(hs):
                         ctx.violation('mesh-depends-on-truncate-flag config=%s marks=%s' % (name, json.dumps(marks)),
                                       {'hb': hs_util.project(hs), 'thb': hs_util.project(hs_t)})
+            if len(hist) >= 2 and n % 3 != 2:
+                # the adaptive loop: read-only queries (solve / mark) between the refine() calls, alternately on the
+                # object itself and on copy()s of it.  Same state, same answers.
+                hs_p, ev_p, err_p = hs_util.replay_history(consts, hist, containers=('set',), truncflag=consts['TruncMark'],
+                                                           probes=True, via_copy=n % 3 == 1)
+                hs_util.probe(hs_p)
+                if err_p is not None or hs_util.project(hs_p) != hs_util.project(hs):
+                    ctx.violation('state-depends-on-read-only-queries config=%s marks=%s' % (name, json.dumps(marks)),
+                                  {'error': repr(err_p), 'plain': hs_util.project(hs), 'probed': hs_util.project(hs_p)})
+                else:
+                    hs = hs_p       # everything below is checked on the probed object
             got = hs_util.project(hs)
             same = all(hs_util.same_sets(got[k], st[k]) for k in ('active', 'deact', 'actfun', 'deactfun'))
             if not same and consts['Disp'] == 0:
